@@ -38,7 +38,7 @@ def _close(fi):
         del fi.__dict__["fasta_fileandle"]
 
 
-def check_file(ctx, data, bs, scratch, roundtrip=True, tag=""):
+def check_file(ctx, data, bs, scratch, roundtrip=True, tag="", other=None):
     from tola.assembly.assembly import Assembly
     from tola.fasta.index import FastaIndex, index_fasta_file
     from tola.fasta.stream import FastaStream
@@ -155,6 +155,27 @@ def check_file(ctx, data, bs, scratch, roundtrip=True, tag=""):
             ctx.violation("reloaded-cache-differs", f"index {i2} vs {exp}; assembly equal={a1 == a2}", case)
             return
         ctx.count("cache-roundtrip")
+        if other is not None:
+            # 6. the file is replaced by another one whose time stamp equals that of the cache files
+            # (cp -p, rsync -t, coarse clocks): what a new object answers must describe the new file
+            try:
+                recs2 = fasta_ref.parse(other)
+            except fasta_ref.Malformed:
+                recs2 = None
+            if recs2 and other != data:
+                p.write_bytes(other)
+                mt = max(Path(str(p) + sfx).stat().st_mtime_ns for sfx in (".fai", ".agp"))
+                for q in (p, Path(str(p) + ".fai"), Path(str(p) + ".agp")):
+                    os.utime(q, ns=(mt, mt))
+                f3 = FastaIndex(p, bs)
+                f3.auto_load()
+                i3 = [(n, i.length, i.file_offset, i.residues_per_line, i.max_line_length) for n, i in f3.index.items()]
+                exp3 = [tuple(fasta_ref.quintuple(r)) for r in recs2]
+                _close(f3)
+                if i3 != exp3:
+                    ctx.violation("index-of-replaced-file-with-equal-timestamp", f"index {i3[:4]} expected {exp3[:4]}", {**case, "other": base64.b64encode(other).decode()})
+                    return
+                ctx.count("cache-replaced-file-equal-mtime")
     ctx.count("files:ok")
     if len(ctx.samples) < 2 and len(recs) > 1:
         ctx.sample({"file": data[:400].decode("latin-1"), "buffer": bs, "index": exp, "rows_first_record": [list(x) for x in fasta_ref.tiling(recs[0])][:8]})
@@ -184,11 +205,12 @@ def run(shard, ctx):
             check_file(ctx, malformed_file(rng), rng.choice([1, 7, 250000]), scratch)
             continue
         data, meta = gfa.gen_fasta(rng)
-        check_file(ctx, data, buffers(rng, meta), scratch, roundtrip=(i % 3 == 0))
+        check_file(ctx, data, buffers(rng, meta), scratch, roundtrip=(i % 3 == 0), other=gfa.gen_fasta(rng)[0] if i % 6 == 0 else None)
 
 
 def replay(case, ctx):
-    check_file(ctx, base64.b64decode(case["data"]), case["buffer"], os.environ.get("VERIF_SHARD_SCRATCH", "."))
+    check_file(ctx, base64.b64decode(case["data"]), case["buffer"], os.environ.get("VERIF_SHARD_SCRATCH", "."),
+               other=base64.b64decode(case["other"]) if case.get("other") else None)
 
 
 def plan(tier, seed):
@@ -205,6 +227,7 @@ def gates(c, tier):
         "random-access:records-exhaustive": 500,
         "random-access:intervals": 50000,
         "cache-roundtrip": 300,
+        "cache-replaced-file-equal-mtime": 200,
     }
     out = [f"{k}>={v} (got {c.get(k, 0)})" for k, v in need.items() if c.get(k, 0) < v]
     if not any(k.startswith("malformed-rejected:duplicate") for k in c):
